@@ -8,6 +8,7 @@ import (
 	"time"
 
 	"github.com/karagenc/socket.io-go/internal/sync"
+	"github.com/karagenc/socket.io-go/internal/verifhook"
 	"github.com/quic-go/webtransport-go"
 
 	"github.com/karagenc/socket.io-go/engine.io/parser"
@@ -360,6 +361,7 @@ func (s *Server) newSocket(
 
 	callbacks := s.onSocket(socket)
 	socket.setCallbacks(callbacks)
+	verifhook.Point("eio.Server.newSocket:before-store")
 
 	ok := s.store.set(sid, socket)
 	if !ok {
